@@ -62,7 +62,7 @@ var checkSpecs = map[string]*checkSpec{
 		stubs: commonStubs,
 		bounds: map[string]string{
 			"quick":    "one step (Input of an arbitrary datagram of 0..96 bytes holding at most one complete segment, both packet types, both ackNoDelay; flush FULL/ACKONLY; Recv with buffers 0,1,3,8; Send of 0..9 bytes) from every state of 7 (flush/Recv/Send) or 5+4 (Input) queue shapes with |snd_buf|,|snd_queue|,|rcv_queue|,|rcv_buf|,|acklist| <= 2; MTU in {50,60,1400} (cc: {25,28,1400})",
-			"thorough": "same steps from the full product of shapes (each queue 0..2), datagrams with up to two segments; timeout-admission scenario (cc on, fast resend 2, 3 in flight, 6 writes, every fate for the first 4 datagrams, 14 rounds) in both tiers",
+			"thorough": "same steps from the full product of shapes (each queue 0..2), datagrams with up to two segments; timeout-admission scenario (cc on, fast resend 2, 3 in flight, 6 writes, every fate for the first 4 datagrams, 14 rounds; the label of the timeout-admission assertion carries the fault history) in both tiers",
 		},
 		outside: "changing window sizes mid-traffic; the timeout-admission clause across several calls and UDPSession.Write admission are separate harnesses (see DESIGN.md)",
 	},
